@@ -5,6 +5,7 @@ import PsyVerif.Lemmas.LoopTransFuse
 import PsyVerif.Lemmas.LoopTransHoist
 import PsyVerif.Lemmas.LoopTransHoistBound
 import PsyVerif.Lemmas.LoopTransSwap
+import PsyVerif.Lemmas.LoopTransReplaceIV
 /-! # C05 — Accepted loop transformations preserve serial semantics
 
 Models: `PsyVerif/Model/LoopTrans.lean` (`chunkValidate/chunkApply`, `fuseValidate/fuseApply`,
@@ -146,6 +147,64 @@ theorem swapOkBody_ncd : NoCarriedDep swapOkBody 0 1 := by
   obtain ⟨y, i, j⟩ := l
   simp only [InstG, swapOkBody, exec, eval, evalBin, Store.set_apply, Prod.mk.injEq] at *
   grind
+
+theorem substE_id {x : Nat} {e a : Expr} (h : x ∉ evars a) : substE x e a = a := by
+  induction a with
+  | lit n => rfl
+  | var y => simp only [evars, List.mem_singleton] at h; simp [substE, Ne.symm h]
+  | idx1 arr i ih => simp only [evars, List.mem_cons, not_or] at h; simp [substE, ih h.2]
+  | idx2 arr i j ihi ihj =>
+    simp only [evars, List.mem_cons, List.mem_append, not_or] at h; simp [substE, ihi h.2.1, ihj h.2.2]
+  | un op a ih => simp only [evars] at h; simp [substE, ih h]
+  | bin op a b iha ihb => simp only [evars, List.mem_append, not_or] at h; simp [substE, iha h.1, ihb h.2]
+
+theorem substS_id {x : Nat} {e : Expr} {s : Stmt} (h : x ∉ rvars s) : substS x e s = s := by
+  induction s with
+  | skip => rfl
+  | seq a b iha ihb => simp only [rvars, List.mem_append, not_or] at h; simp [substS, iha h.1, ihb h.2]
+  | assign y a => simp only [rvars] at h; simp [substS, substE_id h]
+  | store1 arr i a =>
+    simp only [rvars, List.mem_append, not_or] at h; simp [substS, substE_id h.1, substE_id h.2]
+  | store2 arr i j a =>
+    simp only [rvars, List.mem_append, not_or] at h
+    simp [substS, substE_id h.1.1, substE_id h.1.2, substE_id h.2]
+  | ite c t f iht ihf =>
+    simp only [rvars, List.mem_append, not_or] at h; simp [substS, substE_id h.1.1, iht h.1.2, ihf h.2]
+  | loop w lo hi st b ih =>
+    simp only [rvars, List.mem_append, not_or] at h
+    simp [substS, substE_id h.1.1.1, substE_id h.1.1.2, substE_id h.1.2, ih h.2]
+
+theorem map_substS_id {x : Nat} {e : Expr} : ∀ {l : List Stmt}, x ∉ rvars (seqs l) → l.map (substS x e) = l
+  | [], _ => rfl
+  | [a], h => by simp [substS_id (show x ∉ rvars a from h)]
+  | a :: b :: l, h => by
+    have h' : x ∉ rvars a ∧ x ∉ rvars (seqs (b :: l)) := by
+      simpa [seqs, rvars, List.mem_append, not_or] using h
+    rw [List.map_cons, substS_id h'.1, map_substS_id h'.2]
+
+theorem exec_seqs_map_substS (x : Nat) (e : Expr) : ∀ (l : List Stmt) (τ : Store),
+    exec (seqs (l.map (substS x e))) τ = exec (substS x e (seqs l)) τ
+  | [], _ => rfl
+  | [a], _ => rfl
+  | a :: b :: l, τ => by
+    show exec (seqs ((b :: l).map (substS x e))) (exec (substS x e a) τ) = _
+    rw [exec_seqs_map_substS x e (b :: l)]
+    rfl
+
+/-- side condition of the induction-variable theorem: the variable-level content of
+`_is_induction_variable` for the assignment `x = e` between `pre` and `post` (first access,
+no later write, right-hand side not written in the body) PLUS what the code does not test:
+`x` does not occur in the loop header, the loop variable is not assigned in the body, the step
+expression is not modified by the body, `x` / the loop variable are not used as array names -/
+def ReplaceIVSafe (v : Nat) (lo hi st : Expr) (pre post : List Stmt) (x : Nat) (e : Expr) : Prop :=
+  x ∉ eVars e ∧ x ≠ v ∧ x ∉ eVars lo ++ eVars hi ++ eVars st ∧
+  x ∉ rVars (seqs pre) ++ wVars (seqs pre) ∧ x ∉ wVars (seqs post) ∧ x ∉ arrsS (seqs post) ∧ v ∉ arrsE e ∧
+  (∀ r ∈ eVars e, r ∉ wVars (seqs pre) ∧ r ∉ wVars (seqs post)) ∧
+  (v ∉ wVars (seqs pre) ∧ v ∉ wVars (seqs post)) ∧
+  (∀ r ∈ eVars st, r ≠ v ∧ r ∉ wVars (seqs pre) ∧ r ∉ wVars (seqs post))
+
+instance (v : Nat) (lo hi st : Expr) (pre post : List Stmt) (x : Nat) (e : Expr) :
+    Decidable (ReplaceIVSafe v lo hi st pre post x e) := by unfold ReplaceIVSafe; exact inferInstance
 
 /-! ## The property -/
 
@@ -488,6 +547,93 @@ example :
         (.loop 0 (.var 5) (.var 6) (.var 7) (.store1 1 (.var 0) (.var 0))))) := by decide
 
 example : hoistBoundApply ⟨⟨0, .lit 1, .var 4, .lit 1, .skip⟩, 5, 6, 7⟩ = .loop 0 (.lit 1) (.var 4) (.lit 1) .skip := by decide
+
+/-! ### ReplaceInductionVariablesTrans -/
+
+/-- full statement for induction-variable replacement -/
+def C05_replaceIV_statement : Prop :=
+  ∀ t : ReplaceIVTarget, replaceIVValidate t = .ok () → ObsEq [] (replaceIVApply t) t.original
+
+/-- `do i = 5, 1 ; t = i + 2 ; a(i) = t` (ids i=0, a=1, t=2): zero trips -/
+def replaceIVZeroWitness : ReplaceIVTarget :=
+  ⟨0, .lit 5, .lit 1, .lit 1, [.assign 2 (.bin .add (.var 0) (.lit 2)), .store1 1 (.var 0) (.var 2)]⟩
+
+/-- `do i = t, 3 ; t = i - 2 ; a(i) = t`: the replaced variable occurs in the loop header -/
+def replaceIVHeaderWitness : ReplaceIVTarget :=
+  ⟨0, .var 2, .lit 3, .lit 1, [.assign 2 (.bin .sub (.var 0) (.lit 2)), .store1 1 (.var 0) (.var 2)]⟩
+
+/-- sanity: what `apply` produces for the zero-trip witness -/
+example : replaceIVApply replaceIVZeroWitness =
+    .seq (.loop 0 (.lit 5) (.lit 1) (.lit 1) (.store1 1 (.var 0) (.bin .add (.var 0) (.lit 2))))
+      (.assign 2 (.bin .add (.bin .sub (.var 0) (.lit 1)) (.lit 2))) := by decide
+
+/-- second write, read before the assignment, right-hand side written in the body: not replaced -/
+example : replaceIVApply ⟨0, .lit 1, .lit 3, .lit 1, [.assign 2 (.var 0), .assign 2 (.bin .mul (.lit 2) (.var 2))]⟩
+    = .loop 0 (.lit 1) (.lit 3) (.lit 1) (.seq (.assign 2 (.var 0)) (.assign 2 (.bin .mul (.lit 2) (.var 2)))) := by decide
+example : replaceIVApply ⟨0, .lit 1, .lit 3, .lit 1, [.store1 1 (.var 0) (.var 2), .assign 2 (.var 0)]⟩
+    = .loop 0 (.lit 1) (.lit 3) (.lit 1) (.seq (.store1 1 (.var 0) (.var 2)) (.assign 2 (.var 0))) := by decide
+
+/-- the post-loop assignment `t = (i - 1) + 2` runs although the loop body never did -/
+theorem C05_replaceIV_zero_trip_counterexample :
+    replaceIVValidate replaceIVZeroWitness = .ok () ∧
+    ¬ ObsEq [] (replaceIVApply replaceIVZeroWitness) replaceIVZeroWitness.original := by
+  refine ⟨rfl, fun h => ?_⟩
+  have := h (storeOf []) 2 0 0 (by decide)
+  revert this
+  decide
+
+/-- the substitution also rewrites the loop header: `do i = i - 2, 3` starts at -2 -/
+theorem C05_replaceIV_header_counterexample :
+    replaceIVValidate replaceIVHeaderWitness = .ok () ∧
+    ¬ ObsEq [] (replaceIVApply replaceIVHeaderWitness) replaceIVHeaderWitness.original := by
+  refine ⟨rfl, fun h => ?_⟩
+  have := h (storeOf []) 1 (-2) 0 (by decide)
+  revert this
+  decide
+
+theorem C05_replaceIV_statement_false : ¬ C05_replaceIV_statement := fun h =>
+  C05_replaceIV_zero_trip_counterexample.2 (h replaceIVZeroWitness rfl)
+
+/-- **One induction-variable replacement is sound when the loop runs at least once**: the loop
+with `x = e` removed and `x` replaced by `e` in the rest of the body, followed by
+`x = e[v := v - step]`, leaves every scalar and array element as the original loop does, for
+all headers, bodies, stores with a positive trip count.  (`apply` iterates this step; when
+`x` is not read before its assignment the model's substitution of the whole body equals the
+one used here — `map_substS_id`.)  Missing parts: zero-trip loops and a replaced variable in
+the loop header (both refuted above), a body that modifies the step expression or the loop
+variable, and the locations `(x, i, j) ≠ (x, 0, 0)` that a scalar never uses. -/
+theorem C05_replaceIV_sound_partial (v : Nat) (lo hi st : Expr) (pre post : List Stmt) (x : Nat) (e : Expr)
+    (hs : ReplaceIVSafe v lo hi st pre post x e) (σ : Store)
+    (hn : 0 < trip (eval lo σ) (eval hi σ) (eval st σ)) :
+    ∀ l : Loc, (l.1 = x → l = (x, 0, 0)) →
+      (exec (.seq (.loop v lo hi st (seqs ((pre ++ post).map (substS x e))))
+                  (.assign x (substE v (.bin .sub (.var v) st) e))) σ) l
+        = (exec (.loop v lo hi st (seqs (pre ++ .assign x e :: post))) σ) l := by
+  obtain ⟨hxe, hxv, hxh, hxp, hxq, harr, hve, hep, hvw, hst⟩ := hs
+  simp only [List.mem_append, not_or, eVars_eq, rVars_eq, wVars_eq] at hxe hxh hxp hxq hep hvw hst
+  have hO : exec (.loop v lo hi st (seqs (pre ++ .assign x e :: post))) σ
+      = exec (.loop v lo hi st (.seq (seqs pre) (.seq (.assign x e) (seqs post)))) σ := by
+    apply loop_body_congr
+    intro τ
+    rw [exec_seqs_append, exec_seqs_cons]
+    rfl
+  have hN : ∀ τ, exec (.loop v lo hi st (seqs ((pre ++ post).map (substS x e)))) τ
+      = exec (.loop v lo hi st (.seq (seqs pre) (substS x e (seqs post)))) τ := by
+    intro τ
+    apply loop_body_congr
+    intro ρ
+    rw [List.map_append, map_substS_id hxp.1, exec_seqs_append, exec_seqs_map_substS]
+    rfl
+  intro l hl
+  rw [hO]
+  show (exec (.assign x _) (exec (.loop v lo hi st (seqs ((pre ++ post).map (substS x e)))) σ)) l = _
+  rw [hN]
+  exact replaceIV_step_sound v x lo hi st e (seqs pre) (seqs post) hxe hxv ⟨hxh.1.1, hxh.1.2, hxh.2⟩ hxp hxq
+    harr hve hep hvw hst σ hn l hl
+
+/-- non-vacuity: `do i = n, m, 2 ; b(i) = 1 ; t = i + s ; a(i) = t ; c(t) = i` -/
+example : ReplaceIVSafe 0 (.var 4) (.var 5) (.lit 2) [.store1 3 (.var 0) (.lit 1)]
+    [.store1 1 (.var 0) (.var 2), .store1 6 (.var 2) (.var 0)] 2 (.bin .add (.var 0) (.var 7)) := by decide
 
 /-! ### LoopTiling2DTrans -/
 
